@@ -283,7 +283,7 @@ static void part_a() {
     // so that the reproducer stored for a defect is a smallest one; every case of this pre-pass is executed again below.
     for (int n = 1; n <= ncore; ++n) {
         const bool fullalpha = n <= nfull;
-        const int nalpha = fullalpha ? NALL : NCORE;
+        const int nalpha = fullalpha ? NALL : n >= 6 ? NCORE - 1 : NCORE;        // 6 leaves: core alphabet without wAll (5 symbols)
         // redundant-parentheses variant: full alphabet to 4 leaves, core alphabet at 5, not at 6
         const int nalpha_par = n <= 4 ? NALL : n == 5 ? NCORE : 0;
         // n <= 3 is executed by every shard (26k cases) so that the reported reproducer of a defect that shows
@@ -294,7 +294,7 @@ static void part_a() {
         uint64_t before = R->evaluations;
         for (auto& s : sh) { int next = 0; number_slots(s, next); enum_shape(s, n, nalpha, nalpha_par, sharded, sharded || R->shard == 0); }
         if (R->shard == 0) R->count("tree_shapes_" + std::to_string(n) + "_leaves", (long long)sh.size());
-        R->count(std::string("cond_cases_") + std::to_string(n) + "_leaves_" + (fullalpha ? "full" : "core") + "_alphabet", (long long)(R->evaluations - before));
+        R->count(std::string("cond_cases_") + std::to_string(n) + "_leaves_" + (fullalpha ? "full" : n >= 6 ? "core5" : "core6") + "_alphabet", (long long)(R->evaluations - before));
     }
     if (R->shard == 0) {
         std::vector<int> los = {0, 4, 2};
@@ -479,7 +479,7 @@ int main(int argc, char** argv) {
     for (int i = 1; i < argc; ++i) { std::string a = argv[i]; if (a == "--edges" && i + 1 < argc) edges_file = argv[i + 1]; if (a == "--only-a") only_a = true; if (a == "--only-b") only_b = true; }
 
     const std::string rule_a = std::string("(a) every Boolean tree with <= ") + (run.thorough() ? "5" : "4") + " comparisons over the 13-symbol leaf alphabet {" + [] { std::string s; for (auto& l : LEAVES) { if (!s.empty()) s += ", "; s += join(l.tok); } return s; }() +
-        "} and <= " + (run.thorough() ? "6" : "5") + " comparisons over its first 6 symbols; internal nodes AND/OR freely labelled (so same-operator nesting is included), rendered with the parentheses that keep the tree plus a fully parenthesised variant, parenthesis nesting <= 3; seam Action::AST(tokens).eval(Context) on a fixed SummaryState (15 JUL 2020, wells I1 P1 P2, group G1, WLIST *L1); oracle: reference evaluator = truth value of the Boolean expression and, when it is true, the sorted matching-well list = intersection under AND / union under OR where scalar and false sub-conditions contribute no set (the set of a false condition is not compared)";
+        "} and " + (run.thorough() ? "6 comparisons over its first 5 symbols;" : "5 comparisons over its first 6 symbols;") + " internal nodes AND/OR freely labelled (so same-operator nesting is included), rendered with the parentheses that keep the tree plus a fully parenthesised variant, parenthesis nesting <= 3; seam Action::AST(tokens).eval(Context) on a fixed SummaryState (15 JUL 2020, wells I1 P1 P2, group G1, WLIST *L1); oracle: reference evaluator = truth value of the Boolean expression and, when it is true, the sorted matching-well list = intersection under AND / union under OR where scalar and false sub-conditions contribute no set (the set of a false condition is not compared)";
     const std::string rule_b = std::string("(b) every sequence of ") + (run.thorough() ? "8" : "6") + " evaluations (dt in {0,1,2} d) x (condition T/F) for max_run {0..3} x min_wait {0..3} d x start offset {0,2} d, driven as the simulator does: Actions::pending(state,t) -> ActionX::eval -> State::add_run; oracles on every step: ready() == reference predicate, |runs| <= max_run, consecutive runs >= min_wait apart, no run before start, ready and true => runs, State::run_count/run_time == recorded list; states/transitions = abstract graph (run count, days since last run cap 3, days since t0 cap 2, last gap cap 3) closed by an unbounded BFS on the real code (frontier 0), determinism of the abstract key checked on every step of every history";
     run.assumptions = {
         "A1: a well-level comparison over a pattern/list is true iff it holds for at least one well (the statement fixes the set, not this truth value)",
